@@ -474,6 +474,80 @@ theorem run_inv {cfg : Cfg} (hc : cfg.Good) (data : Text) (strict : Bool) (k : K
   | passthrough code => exact ⟨q1, Or.inl (q4 (fun _ hc => nomatch hc))⟩
   | error => exact ⟨q1, Or.inl (q4 (fun _ hc => nomatch hc))⟩
 
+/-! ### bounded retries -/
+
+def reqCount : List Event → Nat
+  | [] => 0
+  | .req _ :: es => reqCount es + 1
+  | _ :: es => reqCount es
+
+theorem reqCount_append (l₁ l₂ : List Event) : reqCount (l₁ ++ l₂) = reqCount l₁ + reqCount l₂ := by
+  induction l₁ with
+  | nil => simp [reqCount]
+  | cons e es ih => cases e <;> simp [reqCount, ih] <;> omega
+
+theorem reqCount_onlyBody {evs : List Event} (h : OnlyBody evs) : reqCount evs = 0 := by
+  induction evs with
+  | nil => rfl
+  | cons e es ih =>
+    obtain ⟨res, rfl⟩ := h e (by simp)
+    simpa [reqCount] using ih (fun e he => h e (by simp [he]))
+
+/-- `reset` sends exactly one request -/
+theorem reset_reqCount (cfg : Cfg) (data : Text) (k : Kind) (r : Reader) :
+    reqCount (Impl.reset cfg data k r).1.log = reqCount r.log + 1 := by
+  unfold Impl.reset
+  simp only
+  split
+  · simp [reqCount_append, reqCount]
+  · split
+    · simp [reqCount_append, reqCount]
+    · generalize serve data k _ _ = sv
+      obtain ⟨code, content⟩ := sv
+      simp only
+      split
+      · simp [reqCount_append, reqCount]
+      · have hmk := mkBody_spec content ‹Conn›
+        split
+        · split
+          · have hds := discard_spec (r.progress + 1) (mkBody content ‹Conn›) r.progress hmk.1
+            generalize discard (r.progress + 1) (mkBody content ‹Conn›) r.progress = dv at hds
+            obtain ⟨nb', good, evs⟩ := dv
+            cases good <;> simp [reqCount_append, reqCount, reqCount_onlyBody hds.1]
+          · simp [reqCount_append, reqCount]
+        · split <;> simp [reqCount_append, reqCount]
+
+theorem readLoop_reqCount (cfg : Cfg) (data : Text) (k : Kind) (m : Nat) :
+    ∀ (sched : List Bool) (r : Reader) (last : Text × Res),
+      reqCount (Impl.readLoop cfg data k m sched r last).1.log ≤ reqCount r.log + sched.count true := by
+  intro sched
+  induction sched with
+  | nil => intro r last; simp [Impl.readLoop]
+  | cons retry sched ih =>
+    intro r last
+    unfold Impl.readLoop
+    generalize r.body.read m = x
+    obtain ⟨b', out, res⟩ := x
+    simp only
+    split
+    · simp [reqCount_append, reqCount]
+    · split
+      · simp [reqCount_append, reqCount]
+      · next hretry =>
+        have hretry' : retry = true := by simpa using hretry
+        have hrc := reset_reqCount cfg data k { r with body := b', log := r.log ++ [Event.body res] }
+        simp only [reqCount_append, reqCount, Nat.add_zero] at hrc
+        split
+        · next r2 heq =>
+          rw [heq] at hrc
+          simp only at hrc ⊢
+          rw [hrc, hretry', List.count_cons_self]; omega
+        · next r2 o hne heq =>
+          rw [heq] at hrc
+          simp only at hrc
+          have := ih r2 (out, Res.fault)
+          rw [hretry', List.count_cons_self]; omega
+
 /-! ### reading the property off an accepted trace -/
 
 namespace Spec
